@@ -1243,7 +1243,9 @@ REGISTRY = {
                    extra_fn=c05_extra), allow_axioms=(),
         explanation="C05 (Cde theorems): for the problem the reader builds, every hard-feasible assignment (C01) is written as an import file that "
                     "satisfies import_ok: only ids of the problem, each assigned registration in a course marked active that the person chose or "
-                    "instructs, active courses within their limits, nobody in a cancelled course.  The real import files are parsed and checked.",
+                    "instructs, active courses within their limits, nobody in a cancelled course; C05_file: the writer model's file for any hard-feasible "
+                    "assignment passes the executable check import_okb.  The real import files are parsed, compared with the writer model and checked "
+                    "by import_okb.",
         trusted_base=["modelled, not verified: cdedb.rs read()/write() (registrations and segments; summary text, timestamps and the rooms field are "
                       "not modelled); the meaning of a partial import in the CdE Datenbank is taken from the property text"],
         assumptions=["registrations the reader drops (not 'participant', no valid choice and no instructed course) keep what the database holds"]),
@@ -1253,7 +1255,8 @@ REGISTRY = {
                    "courses are not mentioned'", extra_fn=c11_extra), allow_axioms=(),
         explanation="C11 (Cde theorems): the adapted limits reserve the places of ignored attendees (new + pre <= max(max, pre), min met counting both), "
                     "courses with ignored people are fixed and therefore written active, ignored registrations and ignored courses are not part of "
-                    "the problem and hence never in the file.  Real import files checked in Coq and against the raw export.",
+                    "the problem and hence never in the file (C11_ignored_not_participant, _problem_courses, _ignored_course_lookup, _reserved_places on "
+                    "the reader specification that the transcription is proved to compute).  Real import files checked in Coq and against the raw export.",
         trusted_base=["as C05; room fitting with both groups (offset increase) is covered by the reader correspondence (offset field) and C06, not "
                       "by a separate end-to-end run with rooms"],
         assumptions=["a registration assigned to a course that is itself ignored counts as unassigned (readme)"]),
@@ -1301,18 +1304,20 @@ REGISTRY = {
                    "non-trivial = distinct room-feasible cases"), allow_axioms=tuple(sorted(vlib.FLOCQ_AXIOMS)),
         explanation="C18 (every listed size is at least the course's size and is its room in an injective allocation that houses every course of "
                     "positive size), C18_nonempty, C18_kinds (listed kinds have positive quantity and a listed capacity; repaired by fix 3ff583c). "
-                    "Rank-level theorems independent of the unstable sort's tie order.  Implementation lists compared exactly with the model and "
-                    "checked by the executable predicate listing_okb.",
+                    "Rank-level theorems independent of the unstable sort's tie order; C18_course_level / C18_for_solutions carry them to course indices "
+                    "and to every solution the search can end with (C06's criterion is the listing's precondition); C18_rooms_file: rooms::read only "
+                    "reorders.  Implementation lists and the result of rooms::read compared exactly with the model and checked by listing_okb.",
         trusted_base=["modelled, not verified: src/io/rooms.rs; effective sizes via Flocq binary32 in the correspondence (theorems are about sizes as "
                       "numbers and carry no axioms); string joining of names not modelled (ids are compared)"],
         assumptions=["'takes place' = effective size >= 1"]),
 
     "C02": dict(mk(spec_c02, streams_c02, RULE_NS + "; no room lists; exact optimum by exhaustive search in the harness (<= 5 courses, <= 7 "
                    "participants), its witness assignment certified in Coq (hard_okb, score_of)", known_fn=known_c02), allow_axioms=(),
-        explanation="C02_partial: for every valid instance without rooms, every worker count and interleaving, the final best score is >= the "
-                    "score of every hard-feasible assignment that keeps the instructors with choices teaching; C02_noTC: full optimality and "
-                    "'no solution only if none exists' outside class TC; C02_refuted: the defect D2 on the faithful model (known finding). "
-                    "Hypotheses: no node run ends in a panic site (C10) or Overflow (C07).  Every solve is replayed through the model; a better "
+        explanation="C02_final / C02_sized / C02_noTC: for every valid instance without rooms outside class TC, every worker count and "
+                    "interleaving, the final best score is >= the score of every hard-feasible assignment, and 'no solution' only if none exists "
+                    "(hypotheses: validity and the size bound the program enforces; scores fit u32; no panic site and no i32 Overflow are proved); "
+                    "C02_partial: the same relative to assignments that keep instructors-with-choices teaching (all instances); C02_refuted: the "
+                    "defect D2 on the faithful model (known finding).  Every solve is replayed through the model; a better "
                     "hard-feasible assignment found by the exact search is a violation (outside TC) certified inside Coq.",
         trusted_base=["modelled, not verified: caobab.rs, bab.rs, hungarian.rs; the exact search of the harness is only a generator of witnesses "
                       "(each witness is checked in Coq); absence of a witness for larger instances is not a proof"],
@@ -1320,33 +1325,36 @@ REGISTRY = {
     "C03": dict(mk(spec_c03, streams_c03, RULE_NS + "; every instance solved under 5 schedules (1 worker default; 2-4 workers random/PCT, spurious "
                    "wake-ups) and compared; synthetic trees as in C09; CLI with --num-threads 1, 2, 16", known_fn=None, extra_fn=c03_extra), allow_axioms=(),
         explanation="C03_engine: on bound-consistent trees any two final states (any worker counts, any interleavings) agree on verdict and score; "
-                    "C03_noTC: the same for caobab::solve without rooms outside class TC (via C02_noTC, C01, C08); C03_refuted: defect D3 (two "
+                    "C03_final / C03_fixed / C03_rooms_noTC: caobab::solve WITH OR WITHOUT rooms outside class TC: the whole subproblem tree incl. "
+                    "room constraint sets is bound consistent (Mono1-3), no generated subproblem panics or overflows, so verdict and score are "
+                    "schedule independent (hypotheses: validity, not TC, the size bound); C03_refuted: defect D3 (two "
                     "recorded histories of one TC instance with scores 200000 / 199999, replayed inside Coq).  All histories are replayed "
                     "through the model; results of different schedules of one instance are compared.",
-        trusted_base=["modelled, not verified: bab.rs, caobab.rs; OS scheduling replaced by the shim's schedules; with rooms the statement rests "
-                      "on correspondence + C09 (bound consistency of the room-stage tree is not proved)"],
+        trusted_base=["modelled, not verified: bab.rs, caobab.rs; OS scheduling replaced by the shim's schedules (critical sections, not "
+                      "instruction interleavings)"],
         assumptions=["known finding: class TC, defect D3"]),
     "C17": dict(mk(spec_c17, streams_c17, "seeded instances, each solved without rooms, with a room list that cannot bind (confirmed by nonbindingb "
                    "in Coq) and with an arbitrary list derived from it; 1 worker default schedule and 2-4 workers random; exact optimum without "
                    "rooms by exhaustive search", extra_fn=c17_extra), allow_axioms=(),
         explanation="C17_upper: with any room list the reported score (every schedule) is the score of a hard-feasible assignment, hence never "
-                    "above the optimum without rooms; C17_nonbinding_gate: a list that cannot bind lets every assignment within the size "
-                    "maxima pass the room gate.  Paired runs compared; the histories are replayed through the model.",
+                    "above the optimum without rooms; C17_nonbinding_node / C17_nonbinding: with a list that cannot bind the node function gives exactly the "
+                    "result it gives without rooms for every subproblem, so both searches are the same transition system.  Paired runs compared; the histories are replayed through the model.",
         trusted_base=["modelled, not verified: caobab.rs room stage; node-level equality run(Some rooms) = run(None) for non-binding lists is "
                       "established by correspondence (both runs replayed against the model), not by a theorem"],
         assumptions=["effective sizes in binary32 (Flocq) as in C06"]),
 
     "C10": dict(mk(spec_c10, streams_c10, RULE_NS + "; CLI stream: the real binary (debug build) on generated simple-format files incl. "
                    "over-subscribed and infeasible instances, 1/2/4 threads, --rooms / --rooms-file, --print", extra_fn=c10_cli), allow_axioms=(),
-        explanation="C10_node_partial (sites 1-5 of run_bab_node unreachable on valid instances and well-formed nodes; only the room stage's "
-                    "sites 6-10 remain), C10_node_noroom (no site at all without rooms), C10_never_stuck (every instance). Never hangs: C04. "
+        explanation="C10_never_hangs (the subproblem tree is finite: a height drops along every child; with C04_no_deadlock every run ends); "
+                    "C10_fixed_node / _fixed_total / _fixed_answered (current code: no panic site 1-10 is reachable for any generated subproblem, "
+                    "every subproblem is answered, no worker dies -- hypotheses: valid instance and the size bound the program checks itself); "
+                    "C10_document_* / C10_export_valid (accepted documents are valid instances up to three unchecked clauses). "
                     "The real binary is run on generated valid instances: exit 0 with a well-formed output or exit 1 with the message and "
-                    "no output, no panic, no timeout; node-level and solve-level outcomes compared with the model (debug build: overflow "
-                    "and debug_assert are panics).",
-        trusted_base=["modelled, not verified: src/caobab.rs, src/bab.rs; main.rs exit-code decisions are observed on the binary, not modelled; "
-                      "room-stage sites 6-10 and preservation of node well-formedness by children are covered by correspondence only; "
-                      "i32 label range (Overflow outcome) by the classical bound; memory exhaustion / running time not modelled"],
-        assumptions=["valid instances (validb); resource bounds: sum of num_max small enough for the dense matrix"]),
+                    "no output, no panic, no timeout; node-, gate- and solve-level outcomes compared with the model (debug build: overflow "
+                    "and debug_assert are panics); corpus/C10_solve.json (witness of defect D14) runs first.",
+        trusted_base=["modelled, not verified: src/caobab.rs, src/bab.rs (tied by the node / gate / solve streams); main.rs exit-code decisions "
+                      "are modelled in Cli.v and observed on the binary; memory exhaustion / running time not modelled"],
+        assumptions=["valid instances (validb); the size bound (participants + course places <= 42947) is enforced by the program since fix 4b4a650"]),
     "C14": dict(mk(spec_none, streams_none, "CLI stream: generated valid simple-format instances (non-ASCII names, hidden participant names, "
                    "participants without choices), binary run with --print and an output file, 1 and 3 threads, --rooms/--rooms-file; stdout "
                    "parsed back into (course, count, [(participant, flag)], hidden) and compared in Coq with Listing.listing of the written array",
@@ -1370,7 +1378,8 @@ REGISTRY = {
         assumptions=["instance validity as in the property text (validb, reflected by C01_valid_checker_sound)"]),
     "C06": dict(mk(spec_c06, streams_node_solve(1), RULE_NS), allow_axioms=tuple(sorted(vlib.FLOCQ_AXIOMS)),
         explanation="C06_node / C06: a Feasible answer (and every best solution of the search, any schedule) passed the room gate, and passing "
-                    "the gate means Housed: rank-wise comparison of the descending sorts (proved; the sort is proved to be a sort).  Generic "
+                    "the gate means Housed: rank-wise comparison of the descending sorts (proved; the sort is proved to be a sort), which is EXACTLY the existence of an "
+                    "allocation of pairwise distinct, sufficiently large rooms (C06_housed_iff, C06_allocation).  Generic "
                     "in the effective-size function; the binary32 instance (Flocq) is what the correspondence evaluates.",
         trusted_base=["modelled, not verified: room stage of src/caobab.rs; f32 arithmetic = Flocq binary32 round-to-nearest-even; "
                       "C06_binary32 (instantiation only) depends on Flocq's classical axioms: sig_not_dec, sig_forall_dec, "
@@ -1379,8 +1388,8 @@ REGISTRY = {
     "C08": dict(mk(spec_c08, streams_c08, RULE_NS + "; quality stream: 1-20000 participants with choices, scores with small/odd/large total penalty, external quality data; CdE reader stream: the penalties of ignored pre-assigned participants (AssignmentQualityInfo) compared with the reader model under all ignore-flag combinations", extra_fn=c08_extra), allow_axioms=(),
         explanation="C08_score_node / C08_score (score = score recomputed from the assignment, every schedule), C08_quality (numerator = sum "
                     "of penalties), C08_max (theoretical maximum >= score).  QualityInfo of the implementation is recomputed in Coq "
-                    "(binary32 quotient compared bit for bit).  The rating of ignored pre-assigned participants (last sentence of the "
-                    "property) belongs to the CdE reader and is checked by C12's reader correspondence.",
+                    "(binary32 quotient compared bit for bit).  The rating of ignored pre-assigned participants: C08_external_rank / _first_rank / "
+                    "_external_list on the reader specification, and ext_quality_okb on the implementation's output.",
         trusted_base=["modelled, not verified: src/caobab/solution_score.rs, src/caobab.rs; printing of f32 values (Display) not modelled"],
         assumptions=["valid instances with at least one participant with choices (else the quality is 0/0)"]),
     "C04": dict(mk(spec_c04, streams_tree(0), RULE_TREE), allow_axioms=(),
@@ -1404,12 +1413,14 @@ REGISTRY = {
     "C07": {
         "run": c07_run, "replay": c07_replay, "allow_axioms": (),
         "explanation": "Theorem C07 (total correctness for every input admitting a perfect allowed matching: never stuck, result is a "
-                       "perfect allowed matching of maximal weight and the score is its weight, or the range-checked Overflow outcome) and "
+                       "perfect allowed matching of maximal weight and the score is its weight, or the range-checked Overflow outcome), "
+                       "C07_total (weights in [0, Wmax] and (N + 2) * Wmax <= i32::MAX: the Overflow outcome is impossible -- dual-objective "
+                       "potential argument, every label stays within [-N*Wmax, (N+1)*Wmax], HP7) and "
                        "C07_partial are proved about the Gallina transcription HP1.hungarian (invariants, Hall-type progress, weak duality). "
                        "The transcription is tied to hungarian.rs by exact comparison of matching, score and final dual labels on generated inputs.",
         "trusted_base": ["modelled, not verified: src/hungarian.rs; i32 label arithmetic is range-checked in the model (Overflow outcome) "
-                         "for the slack scan and the label update, not for the initial/extension equality tests; that Overflow does not "
-                         "occur for n*W < 2^30 is the classical potential bound, not formalised"],
+                         "for the slack scan and the label update; the sums in the initial/extension equality tests are not range-checked in "
+                         "the model but lie within the same proved window (HP7.bnd_window: lx + ly in [-N*Wmax, (N+1)*Wmax])"],
         "assumptions": ["generated weights are < 2^20 so that no i32 overflow occurs in the implementation (debug build would panic)"],
     },
     "C20": {
